@@ -2,13 +2,14 @@
 import z3
 
 from props import constructions as C
+from props import constructions2 as C2
 from vlib.pyvc import interp as I
 
 
 def proved(run):
     run.trust("pyvc symbolic interpreter over the real AST", f"z3 {z3.get_version_string()}")
     run.assume('T-PUSH: diagonal conjugacy preserves every path weight (telescoping; the per-arc identity is proved)', 'contract of WFSA.backward: V = stop + A V [bounded in C15]', 'T-DET, T-BRZ (assumed)')
-    for f in (C.push,):
+    for f in (C.push, C2.c13_determinize):
         try:
             f(run)
         except (I.OutOfSubset, KeyError) as e:
